@@ -40,7 +40,7 @@ from pycdlib import utils
 
 # For mypy annotations
 if False:  # pylint: disable=using-constant-test
-    from typing import Any, BinaryIO, Callable, Deque, Dict, Generator, IO, List, Optional, Tuple, Union  # NOQA pylint: disable=unused-import
+    from typing import Any, BinaryIO, Callable, Deque, Dict, Generator, IO, List, Optional, Set, Tuple, Union  # NOQA pylint: disable=unused-import
 
 # There are a number of specific ways that numerical data is stored in the
 # ISO9660/Ecma-119 standard.  In the text these are reference by the section
@@ -1019,8 +1019,15 @@ class PyCdlib:
         child_links = []
         lastbyte = 0
         dirs = collections.deque([root_dir_record])
+        seen_dir_extents = set()  # type: Set[int]
         while dirs:
             dir_record = dirs.popleft()
+
+            # A directory whose records lead back to a directory that was
+            # already walked would keep this loop going forever.
+            if dir_record.extent_location() in seen_dir_extents:
+                raise pycdlibexception.PyCdlibInvalidISO('Directory loop on the ISO')
+            seen_dir_extents.add(dir_record.extent_location())
 
             self._seek_to_extent(dir_record.extent_location())
             length = dir_record.get_data_length()
@@ -2090,11 +2097,16 @@ class PyCdlib:
                                                 None)
 
         udf_file_entries = collections.deque([self.udf_root])
+        seen_dir_entries = set()  # type: Set[int]
         while udf_file_entries:
             udf_file_entry = udf_file_entries.popleft()
 
             if udf_file_entry is None:
                 continue
+
+            if udf_file_entry.extent_location() in seen_dir_entries:
+                raise pycdlibexception.PyCdlibInvalidISO('Directory loop in the UDF part of the ISO')
+            seen_dir_entries.add(udf_file_entry.extent_location())
 
             for desc in udf_file_entry.alloc_descs:
                 abs_file_ident_extent = part_start + desc.log_block_num
